@@ -469,7 +469,106 @@ func (g c37Gen) sameKey(q string) string {
 	return sb.String()
 }
 
+// ---- near misses: texts an over-eager cache-key normaliser might identify with an allowed one
+var c37NearPairs = [][2]string{
+	{"events-2024", "events-2025"}, {"metrics.7", "metrics.8"}, {"t_1", "t_2"}, {"orders2", "orders3"}, {"v1.orders", "v2.orders"},
+	{"a-1-b", "a-2-b"}, {"orders", "orders1"}, {"orders", "orders-1"}, {"orders", "orders.0"}, {"logs.2024.01", "logs.2024.02"},
+	{"orders", "orders_"}, {"orders", "orders."}, {"orders", "orders,"}, {"orders", "'orders'"}, {"orders", "\"orders\""}, {"orders", "orders`"},
+	{"orders", "ord ers"}, {"orders", "ordérs"}, {"orders", "0rders"}, {"7", "8"}, {"2024", "2025"},
+}
+
+// nearQuery builds a statement over the given topic names; the same shape with other names
+// is its near miss
+func (g c37Gen) nearQuery(shape int, t1, t2 string, num int) string {
+	switch shape % 7 {
+	case 0:
+		return fmt.Sprintf("select * from %s limit %d", t1, num)
+	case 1:
+		return fmt.Sprintf("SELECT _key FROM %s WHERE _offset >= %d LIMIT 10", t1, num)
+	case 2:
+		return fmt.Sprintf("select * from orders o join %s p on o._key = p._key last %dh", t1, num)
+	case 3:
+		return fmt.Sprintf("select * from %s a left join %s b on a._key = b._key within %dm", t1, t2, num)
+	case 4:
+		return fmt.Sprintf("describe %s", t1)
+	case 5:
+		return fmt.Sprintf("show partitions from %s;", t1)
+	default:
+		return fmt.Sprintf("explain select json_value(_value, '$.f%d') from %s tail %d", num, t1, num)
+	}
+}
+
+// digitMiss changes one run of digits of q (a name segment, a literal, a LIMIT ...)
+func (g c37Gen) digitMiss(q string) string {
+	var runs [][2]int
+	for i := 0; i < len(q); {
+		if q[i] >= '0' && q[i] <= '9' {
+			j := i
+			for j < len(q) && q[j] >= '0' && q[j] <= '9' {
+				j++
+			}
+			runs = append(runs, [2]int{i, j})
+			i = j
+		} else {
+			i++
+		}
+	}
+	if len(runs) == 0 {
+		return q + " limit 3"
+	}
+	rn := runs[g.r.Intn(len(runs))]
+	return q[:rn[0]] + fmt.Sprint(g.r.Range(0, 99)) + q[rn[1]:]
+}
+
+func c37NearCase(r *vRand) c37Case {
+	g := c37Gen{r}
+	pair := c37NearPairs[r.Intn(len(c37NearPairs))]
+	good, bad := pair[0], pair[1]
+	if r.Chance(30) {
+		good, bad = bad, good
+	}
+	cs := c37Case{TTL: 3600, Max: r.Range(4, 64)}
+	switch r.Intn(4) {
+	case 0:
+		cs.Allow = []string{"orders", good}
+	case 1:
+		cs.Deny = []string{bad}
+	case 2:
+		cs.Allow, cs.Deny = []string{"*"}, []string{bad}
+	default:
+		cs.Allow = []string{good}
+	}
+	shape, num := r.Intn(7), r.Range(1, 9)
+	// the allowed statement first (it fills the cache), then its near misses
+	cs.Msgs = append(cs.Msgs, []byte(g.nearQuery(shape, good, good, num)))
+	n := r.Range(2, 6)
+	for i := 0; i < n; i++ {
+		var q string
+		switch r.Intn(8) {
+		case 0, 1:
+			q = g.nearQuery(shape, bad, good, num) // only the name differs
+		case 2:
+			q = g.nearQuery(shape, good, bad, num)
+		case 3:
+			q = g.nearQuery(shape, bad, bad, r.Range(1, 9))
+		case 4:
+			q = g.nearQuery(shape, good, good, r.Range(10, 99)) // only a number differs: may or may not share a decision
+		case 5:
+			q = g.digitMiss(string(cs.Msgs[r.Intn(len(cs.Msgs))]))
+		case 6:
+			q = g.sameKey(string(cs.Msgs[r.Intn(len(cs.Msgs))]))
+		default:
+			q = g.nearQuery(r.Intn(7), bad, good, num)
+		}
+		cs.Msgs = append(cs.Msgs, []byte(strings.ReplaceAll(q, "\x00", " ")))
+	}
+	return cs
+}
+
 func c37GenCase(r *vRand) c37Case {
+	if r.Chance(40) {
+		return c37NearCase(r)
+	}
 	g := c37Gen{r}
 	a := c37ACLs[r.Intn(len(c37ACLs))]
 	cs := c37Case{Allow: a.allow, Deny: a.deny}
@@ -527,7 +626,7 @@ func c37Coq(cs c37Case, obs c37Obs) string {
 			ts[j] = cqStr(t)
 		}
 		fwd := i < len(obs.forwarded) && obs.forwarded[i]
-		msgs[i] = fmt.Sprintf("mkMsg %s %s %s %s %s", cqStr(text), cqBool(ok), cqList(ts), cqBool(show), cqBool(fwd))
+		msgs[i] = fmt.Sprintf("mkMsg %s %s %s %s %s %s", cqStr(text), cqBool(ok), cqList(ts), cqBool(show), cqBool(fwd), cqStr(cacheKey(text)))
 	}
 	var tab []string
 	for t := range topicSet {
@@ -552,7 +651,7 @@ func c37Coq(cs c37Case, obs c37Obs) string {
 }
 
 func TestVerifC37(t *testing.T) {
-	rep := vNewReport("C37", "client connections through the real proxy handleConn (fake pgwire client, fake upstream recording received texts): 2-8 query messages per connection; selects / joins / explain / show / describe over allowed and forbidden topics, texts of 400-700 bytes with the join or second topic placed around byte 512 (white-space or column-list padding), trailing ';' variants, SET/RESET/empty/garbage, exact repeats and same-cache-key variants (cache hits), keyword case and multi-byte white space; 11 ACL shapes (allow lists, deny lists, patterns, empty); cache off / tiny / large. Non-trivial = at least one text is forwarded and at least one refused, or a text longer than 512 bytes is involved; distinct = distinct (ACL, cache, messages)")
+	rep := vNewReport("C37", "client connections through the real proxy handleConn (fake pgwire client, fake upstream recording received texts): 2-8 query messages per connection; selects / joins / explain / show / describe over allowed and forbidden topics, texts of 400-700 bytes with the join or second topic placed around byte 512 (white-space or column-list padding), trailing ';' variants, SET/RESET/empty/garbage, exact repeats and same-cache-key variants (cache hits), near misses of an allowed statement on the same connection (topic / join-topic names differing in a digit, in a digit-only segment after '-' '.' '_', in trailing punctuation, quotes, inner white space, a non-ASCII letter; numbers in LIMIT / offset / literal positions) with ACLs allowing exactly one of the two names, keyword case and multi-byte white space; 11 ACL shapes (allow lists, deny lists, patterns, empty); cache off / tiny / large. Non-trivial = at least one text is forwarded and at least one refused, or a text longer than 512 bytes is involved; distinct = distinct (ACL, cache, messages)")
 	var coq, jsons []string
 	runOne := func(cs c37Case, kind string) {
 		obs := c37Run(cs)
@@ -569,6 +668,20 @@ func TestVerifC37(t *testing.T) {
 		}
 		rep.Count(string(canon), long || (nf > 0 && nf < len(cs.Msgs)))
 		rep.Hist(kind)
+		if len(obs.upstream) > 0 {
+			hits := 0
+			seen := map[string]bool{}
+			for _, m := range cs.Msgs {
+				k := cacheKey(string(m))
+				if seen[k] {
+					hits++
+				}
+				seen[k] = true
+			}
+			if hits > 0 && cs.TTL > 0 && cs.Max > 0 {
+				rep.Hist("has-repeated-cache-key")
+			}
+		}
 		rep.Hist(fmt.Sprintf("forwarded=%d", nf))
 		if long {
 			rep.Hist("has-text>512")
@@ -633,6 +746,12 @@ func TestVerifC37(t *testing.T) {
 			{Allow: []string{"orders"}, TTL: 60, Max: 2, Msgs: [][]byte{[]byte("SELECT * FROM orders"), []byte("select  *  from  ORDERS"), []byte("select * from secret"), []byte("SELECT * FROM secret"), []byte("show topics"), []byte("SET x = 1;"), []byte("set\tx = 1")}},
 			{Allow: []string{"orders"}, Msgs: [][]byte{[]byte("explain select * from orders join secret s on orders._key = s._key"), []byte("explain select * from orders;;"), []byte(""), []byte(";")}},
 		}
+		// shapes of the seeded cache-key normalisations: names differing in a digit-only segment
+		corpus = append(corpus,
+			c37Case{Allow: []string{"events-2024"}, TTL: 60, Max: 8, Msgs: [][]byte{[]byte("select * from events-2024 limit 5"), []byte("select * from events-2025 limit 5"), []byte("select * from events-2024 limit 7")}},
+			c37Case{Deny: []string{"metrics.8"}, TTL: 60, Max: 8, Msgs: [][]byte{[]byte("select * from orders o join metrics.7 p on o._key = p._key"), []byte("select * from orders o join metrics.8 p on o._key = p._key")}},
+			c37Case{Allow: []string{"orders"}, TTL: 60, Max: 8, Msgs: [][]byte{[]byte("describe orders"), []byte("describe orders1"), []byte("describe 'orders'"), []byte("describe orders."), []byte("DESCRIBE ORDERS")}},
+		)
 		for _, cs := range corpus {
 			runOne(cs, "corpus")
 		}
